@@ -216,6 +216,8 @@ def faulty(f, k, kind):
                 r[0] = -np.inf
             elif kind == "huge":
                 r[0] = 1e200
+            elif kind == "zero":              # not a fault: the residual vanishes at this one call (a planted solution)
+                r[:] = 0.0
             elif kind == "raise":
                 state["exc"] = Boom("fault injected at call %d" % state["i"])
                 raise state["exc"]
